@@ -61,6 +61,32 @@ def _uses(body, local):
     return out
 
 
+ERR_CLOSURE = ("Result<T, E>::map_or_else", "Result<T, E>::or_else", "Result<T, E>::unwrap_or_else")
+_CRATE = [None]
+
+
+def _err_closure_keeps(body, t):
+    """the error-handling closure (2nd argument) of the combinator call `t` is local and every path through it returns a
+    term that contains its error parameter"""
+    crate = _CRATE[0]
+    if crate is None or len(t["args"]) < 2:
+        return False
+    c = mir.strip_refs(mir.Expr(body).operand(t["args"][1]))
+    if not (isinstance(c, tuple) and c[0] == "agg" and c[1] == "closure" and c[2] in crate.bodies):
+        return False
+    from .. import walk
+    cb = crate.bodies[c[2]]
+    ps = walk.walk(cb, crate, max_paths=50)
+    if not ps:
+        return False
+    for p in ps:
+        if p.outcome[0] != "return":
+            return False
+        if not any(isinstance(x, tuple) and x[0] == "arg" and x[1] == 2 for x in mir.walk_expr(p.outcome[1])):
+            return False
+    return True
+
+
 def _flows_ok(body, local, seen, depth=0):
     """Does the Result held in `local` reach an accepted consumer on every use?  Returns (ok, reason)."""
     if local in seen or depth > 12:
@@ -79,6 +105,14 @@ def _flows_ok(body, local, seen, depth=0):
             info = mir.callee_info(t["callee"])
             k = info["key"]
             if k.endswith(CONSUME_OK):
+                consumed = True
+                continue
+            if k in ERR_CLOSURE and _err_closure_keeps(body, t) and not t["dest"]["proj"] and _carries_error(t["dest"]["ty"]):
+                # r.map_or_else(|e| e, ..) / r.or_else(|e| Err(f(e))): the error closure returns a value built from the
+                # error on every path and the result still has the library error in its type
+                okk, why = _flows_ok(body, t["dest"]["local"], seen, depth + 1)
+                if not okk:
+                    return False, why
                 consumed = True
                 continue
             if k in SWALLOW or info["base_key"] in SWALLOW:
@@ -149,6 +183,7 @@ def _check_side(an, rep, side, rule_id, crate=None, roots=None):
                           "yielded as an iterator item; .ok() / .unwrap_or*() / .is_ok() / let _ = / plain drop are violations"
                  % side)
     core = crate or an.core()
+    _CRATE[0] = core
     cg = callgraph.CallGraph(core)
     selftest = roots is not None
     if roots is None:
